@@ -813,7 +813,7 @@ func init() {
 	Register(&Prop{
 		ID:  "C10",
 		Run: runC10,
-		Rule: "case = a stem from().groupBy('g','h') forked into 2-3 sibling branches (each its own goroutines), every branch a chain of 1-3 nodes from where, eval (as + keep() / keep(list) / no keep / tags()), default, delete (fields, tags, and the first group-by dimension), shift, sample, derivative (unit, nonNegative, as), changeDetect (also on a field that some points lack), stateCount, stateDuration (units 500ms/1s/2s/1m), flatten().on(tag) or combine (specific+TRUE, TRUE+TRUE, TRUE+specific expressions, optional tolerance) or a re-grouping groupBy (by a non-dimension tag, a tag some points lack, or *) as a last node, where/eval with the stateful lambda function count(), with generated parameters; in a third of the cases the chains run on batch edges (below window().period(Ns).every(Ns), N 2-4: each batch must be the transformation of the written points of its group and period, with batch time and tags); outputs are compared with their group-by dimensions, over 1-3 groups of 1-8/16 points (int, float and string fields, an optional tag, repeated timestamps), one concurrent writer per group; " +
+		Rule: "case = a stem from().groupBy('g','h') forked into 2-3 sibling branches (each its own goroutines), every branch a chain of 1-3 nodes from where, eval (as + keep() / keep(list) / no keep / tags()), default, delete (fields, tags, and the first group-by dimension), shift, sample, derivative (unit, nonNegative, as), changeDetect (also on a field that some points lack), stateCount, stateDuration (units 500ms/1s/2s/1m), flatten().on(tag) or combine (specific+TRUE, TRUE+TRUE, TRUE+specific expressions, optional tolerance) or a re-grouping groupBy (by a non-dimension tag, a tag some points lack, or *) as a last node, where/eval with the stateful lambda function count() or over a field only some points carry, with generated parameters; in a third of the cases the chains run on batch edges (below window().period(Ns).every(Ns), N 2-4: each batch must be the transformation of the written points of its group and period, with batch time and tags); outputs are compared with their group-by dimensions, over 1-3 groups of 1-8/16 points (int, float and string fields, an optional tag, repeated timestamps), one concurrent writer per group; " +
 			"non-trivial = the reference produces output on some branch; distinct = distinct (scenario, interleaving signature) pairs",
 		Real:        []string{"WhereNode, EvalNode, DefaultNode, DeleteNode, ShiftNode, SampleNode, DerivativeNode, ChangeDetectNode, StateTracking nodes", "edge forwarding (the same message object goes to every child edge), GroupedConsumer, tick/stateful", "FromNode/groupBy, LogNode, TaskMaster, httpd write endpoint"},
 		Stub:        []string{"log sink at the end of every branch: keeps a deep copy taken on arrival and the live message"},
